@@ -98,6 +98,11 @@ def run(ctx):
                     t = shape.replace('%s', atom)
                     filters.append(t)
                     meta[t] = (pos, 'escaped')
+        # filters that keep only the EARLIER of two rows sharing an id, or a row whose id was edited in place (the grid's look-ups by key
+        # are compared before / after every evaluation in the child)
+        for t in ('a == 77', 'b == "first"', 'a > 76 and a < 78', 'a == 79', 'id == @dup and a == 77', 'not siteRef and a == 77'):
+            filters.append(t)
+            meta[t] = ('whole', 'raw')
         filters = list(dict.fromkeys(filters))
         ctx.coverage['rule'] = ('%d canary payloads (Python expressions / statements with an observable effect, builtin and dunder names, names of the generated code\'s own helpers, quotes, backslashes, newlines, format directives) '
                                 'x %d raw positions (string, URI, reference name / display, extended-string encoding / payload, unit, zone, tag name in 4 roles, Bin, list, dict, number, operator, whole filter) + %d escaped literal positions '
